@@ -227,7 +227,9 @@ fn solve_axis(family: &str, problem: &PProblem, report: &mut Report) {
     for (parallelism, plan) in layouts {
         report.add_count("layout_solves", 1);
         report.add_count("transitions", 1);
-        let cfg = SolveCfg { parallelism, plan, generations: 3, seed: 5, ..SolveCfg::default() };
+        // families with three and more tours and conditional jobs: long enough for the parallel decomposition to be used
+        let generations = if ["fleet4", "mixed10", "line12"].contains(&family) { 60 } else { 3 };
+        let cfg = SolveCfg { parallelism, plan, generations, seed: 5, ..SolveCfg::default() };
         let scen = json!({"axis": "solve", "family": family, "problem": problem.name, "cfg": cfg.to_json()});
         match solve(problem, &cfg, None, None) {
             Ok(solved) => {
@@ -239,6 +241,48 @@ fn solve_axis(family: &str, problem: &PProblem, report: &mut Report) {
                 }
             }
             Err(e) => report.violation(Violation::new(format!("layout:solve-error:{family}"), e, scen)),
+        }
+    }
+}
+
+/// (3b) every search operator applied once to every initial construction under every non-sequential split plan: the
+/// outcome has to be a consistent, feasible solution (the invariants of C04) whatever way the parallel wrappers split
+/// the work (route groups of the decomposition, routes of the tour re-sequencing, job x route pairs of the recreate).
+fn operator_axis(family: &str, problem: &PProblem, report: &mut Report) {
+    use super::c04;
+    let Ok(world) = c04::World::new(family, problem) else { return };
+    let roots = world.roots();
+    let names: Vec<String> = c04::operators(&world.core, &world.env).into_iter().map(|(n, _)| n).collect();
+    for (root_name, root) in roots.iter().step_by(2) {
+        for plan in [PlanPolicy::Reverse, PlanPolicy::SingletonsLeft, PlanPolicy::SingletonsRight, PlanPolicy::Halves] {
+            for (oi, name) in names.iter().enumerate() {
+                report.add_count("operator_steps_under_plans", 1);
+                report.add_count("transitions", 1);
+                world.start(1);
+                let ops = c04::operators(&world.core, &world.env);
+                let rctx = world.refinement_ctx(root);
+                install_policy(plan.clone());
+                let next = catch(|| ops[oi].1.search(&rctx, root));
+                uninstall_plan();
+                let scen = json!({"axis": "operator", "family": family, "problem": problem.name, "root": root_name, "operator": name, "plan": format!("{plan:?}")});
+                match next {
+                    Ok(state) => {
+                        let mut errs = c04::structural(&world, &state);
+                        errs.extend(c04::feasibility(&world, &state));
+                        let mut seen = std::collections::HashSet::new();
+                        for (key, what) in errs {
+                            // recorded defects of C01/C04 (unreachable legs, the break report) are theirs to report
+                            if key.contains("unreachable-leg") || key.ends_with(":reported-before-arrival") {
+                                continue;
+                            }
+                            if seen.insert(key.clone()) {
+                                report.violation(Violation::new(format!("operator-under-plan:{key}:{family}:{}", name.split('+').next().unwrap_or("")), what, scen.clone()));
+                            }
+                        }
+                    }
+                    Err(p) => report.violation(Violation::new(format!("operator-under-plan:panic@{}:{family}", panic_site(&p)), p, scen)),
+                }
+            }
         }
     }
 }
@@ -312,6 +356,10 @@ pub fn worker(ctx: &RunCtx, shard: usize, of: usize, _extra: &Extra) -> Report {
             Err(e) => report.error(format!("cannot read {}: {e}", problem.name)),
         }
         solve_axis(family, problem, &mut report);
+        // operators under split plans: the families with conditional jobs, several tours, relations
+        if ["fleet4", "cond", "rel", "pd", "combo"].contains(&family.as_str()) || ctx.tier != Tier::Quick {
+            operator_axis(family, problem, &mut report);
+        }
         if idx % 5 == 0 {
             report.sample(json!({"family": family, "problem": problem.name}));
         }
@@ -346,6 +394,8 @@ pub fn replay(_ctx: &RunCtx, scenario: &Value) -> Result<Vec<Violation>, String>
     let mut report = Report::new("model_checking");
     if scenario["axis"] == "solve" {
         solve_axis(&family, &problem, &mut report);
+    } else if scenario["axis"] == "operator" {
+        operator_axis(&family, &problem, &mut report);
     } else {
         let world = World::new(&family, &problem)?;
         plan_axis(&family, &world, &mut report);
